@@ -5,6 +5,7 @@ import (
 	"encoding/json"
 	"fmt"
 	"math/big"
+	"os"
 	"runtime/debug"
 	"sort"
 	"strings"
@@ -242,6 +243,7 @@ func (s *Sim) hook(ctx context.Context, point string) {
 // Run executes the input inside a synctest bubble and returns what happened.
 func Run(t *testing.T, in *Input, target string, keepLog bool) (res *Result) {
 	s := newSim(in, target, 4000)
+	s.sched.keepDebug = keepLog && os.Getenv("SIM_DEBUG") != ""
 	func() {
 		defer func() {
 			if e := recover(); e != nil {
@@ -919,7 +921,7 @@ func (s *Sim) execOp(ctx context.Context, rec *OpRecord, li *ledgerInst) {
 			Metadata:  metadata.Metadata{"req": rec.Marker},
 			Reference: op.Ref,
 		}
-		rec.Script = &rs
+		rec.Script = cloneScript(&rs)
 		rec.Tx, rec.Err = li.commander.CreateTransaction(ctx, params, rs)
 	case "postings":
 		td := ledger.TransactionData{Metadata: metadata.Metadata{"req": rec.Marker}, Timestamp: ts, Reference: op.Ref}
@@ -931,7 +933,7 @@ func (s *Sim) execOp(ctx context.Context, rec *OpRecord, li *ledgerInst) {
 			td.Postings = append(td.Postings, ledger.NewPosting(acctName(p.Src), acctName(p.Dst), assetName(p.Asset), amt))
 		}
 		rs := ledger.TxToScriptData(td, false)
-		rec.Script = &rs
+		rec.Script = cloneScript(&rs)
 		rec.Tx, rec.Err = li.commander.CreateTransaction(ctx, params, rs)
 	case "revert":
 		rec.Tx, rec.Err = li.commander.RevertTransaction(ctx, params, rec.TargetTx, op.Force)
@@ -978,6 +980,21 @@ func (s *Sim) seedHistory(li int, m *Medium, base *big.Int) {
 	c.byTxID[e.Tx.ID.String()] = e
 	applyPostings(c.model, e.Tx.Postings)
 	c.nextTx = new(big.Int).Add(base, big.NewInt(1)).Int64()
+}
+
+// cloneScript keeps a pristine copy of a request: the engine consumes the variable map it is
+// given (ParseVariablesJSON deletes the entries it has used).
+func cloneScript(rs *ledger.RunScript) *ledger.RunScript {
+	c := *rs
+	c.Vars = map[string]string{}
+	for k, v := range rs.Vars {
+		c.Vars[k] = v
+	}
+	c.Metadata = metadata.Metadata{}
+	for k, v := range rs.Metadata {
+		c.Metadata[k] = v
+	}
+	return &c
 }
 
 func (s *Sim) stateHash() string {
